@@ -18,7 +18,8 @@ PROBES = ["lock_contention", "overlapping_loads"]
 RULE = ("seeded runs; a run = one product on simfs/local storage opened once, 4 actor sets "
         "(scenario in {same-variable, different-images, different-images-same-rows, "
         "pickled-copy, mixed, sweep = every actor walks over 2-5 images; a quarter of the products "
-        "have 5-8 image files}; 2-3 loader actors with 1-5 selections each) x 12 (quick) / 40 (thorough) seeded schedules each; the "
+        "have 5-8 image files}; 2-3 loader actors (up to 5 on the many-image products) with 1-5 "
+        "selections each) x 12 (quick) / 40 (thorough) seeded schedules each; the "
         "scheduler decides every switch at open/seek/read/close/lock-acquire points (modes: "
         "uniform random with a switch probability, PCT priorities, and <=3 forced line-level "
         "pre-emptions inside ceos_alos2 frames); each "
@@ -63,7 +64,7 @@ def generate(rng, tier, index):
             scenario = "pickled-copy"
         if scenario == "different-images" and n_img < 2:
             scenario = "same-variable"
-        n_act = rng.choice([2, 2, 3])
+        n_act = rng.choice([2, 2, 3]) if not many else rng.choice([2, 3, 4, 5])
         img0 = rng.randrange(n_img)
         actors = []
         if scenario == "sweep":
@@ -138,7 +139,11 @@ def _generate_systematic(rng, tier):
 
 def _schedules(plan, si, budget, stats):
     """yields (j, scheduler, mode); the consumer runs the scheduler before asking for the next"""
-    if plan.get("systematic") and plan.get("schedule") is None:
+    if plan.get("schedule") is not None:      # replay of one recorded schedule
+        j = (plan.get("only") or [0, 0])[1]
+        yield j, Sched(script=plan["schedule"], max_steps=budget), "script"
+        return
+    if plan.get("systematic"):
         stack = [[]]
         j = 0
         while stack and j < plan["systematic"]:
